@@ -20,7 +20,7 @@ import (
 )
 
 type zvC11Op struct {
-	Kind string `json:"op"` // add | rm
+	Kind string `json:"op"` // add | rm | rmx | blk (announcement of a path the export rules block: NO_ADVERTISE)
 	P    int    `json:"pfx"`
 	X    int    `json:"path"` // 0,1: attribute-identical; 2: differs outside ComputeHash; 3: differs in a hashed attribute
 }
@@ -177,7 +177,10 @@ func zvC11Step(r *vh.Run, u zvC11Uni, hist []zvC11Op) (string, []zvC11Op, bool) 
 	noExtend := false
 	for i, o := range hist {
 		last := i == len(hist)-1
-		cl := zvC11Class[o.X]
+		cl := 0
+		if o.Kind != "blk" {
+			cl = zvC11Class[o.X]
+		}
 		viol := func(sig map[string]string, f string, args ...any) {
 			ok = false
 			if last {
@@ -261,6 +264,39 @@ func zvC11Step(r *vh.Run, u zvC11Uni, hist []zvC11Op) (string, []zvC11Op, bool) 
 				break
 			}
 			view[o.P][v.PathID] = v
+		case "blk":
+			// the Loc-RIB announces a path the export rules block. Whether the session may withdraw the paths it
+			// advertises for the prefix at that point is C08's subject; here the model follows what the client is told
+			// and demands that every withdrawal names an advertised path by the identifier it was announced with -
+			// the state oracles below then compare the allocator with the table
+			blocked := paths[0].Copy()
+			blocked.BGPPath.Communities = &types.Communities{65000<<16 | 1, types.WellKnownCommunityNoAdvertise}
+			if p, what := vh.Try(func() { a.AddPath(zvC11Pfxs[o.P], blocked) }); p {
+				viol(vh.Sig("clause", "panic", "op", "blk"), "AddPath of a NO_ADVERTISE path panicked: %s", what)
+				break
+			}
+			if last {
+				r.Count("blocked_announcement", 1)
+			}
+			for _, k := range rec.take() {
+				if k.Op != "rm" || k.Pfx != pfxS {
+					viol(vh.Sig("clause", "blocked_path_advertised"), "prefix %s: the announcement of a NO_ADVERTISE path made the session call its client with %v", pfxS, k)
+					continue
+				}
+				held, okv := view[o.P][k.V.PathID]
+				if !okv {
+					viol(vh.Sig("clause", "withdraw_id", "differ", "blocked-announcement"), "prefix %s: withdrawal with identifier %d, under which no path is advertised (advertised: %v)", pfxS, k.V.PathID, view[o.P])
+					continue
+				}
+				if last {
+					r.Count("withdrawal_after_blocked_announcement", 1)
+				}
+				if c := clOf(held); c >= 0 {
+					present[o.P][c] = false
+					annID[o.P][c] = 0
+				}
+				delete(view[o.P], k.V.PathID)
+			}
 		case "rmx":
 			// withdrawal of a path this prefix does not hold: nothing may happen (the Loc-RIB issues such calls)
 			if p, what := vh.Try(func() { a.RemovePath(zvC11Pfxs[o.P], paths[o.X]) }); p {
@@ -429,6 +465,7 @@ func zvC11Step(r *vh.Run, u zvC11Uni, hist []zvC11Op) (string, []zvC11Op, bool) 
 
 	var en []zvC11Op
 	for p := 0; p < u.NPfx; p++ {
+		en = append(en, zvC11Op{"blk", p, 0})
 		for x := 0; x < 4; x++ {
 			if present[p][zvC11Class[x]] {
 				en = append(en, zvC11Op{"rm", p, x})
@@ -499,7 +536,7 @@ func zvC11Universes(thorough bool) []zvC11Uni {
 }
 
 var zvC11Required = []string{"same_hash_different_attrs_on_one_prefix", "withdrawal_with_sibling_on_prefix", "release_of_shared_identifier",
-	"identifier_shared_by_prefixes", "withdrawals_checked", "genuine_exhaustion", "allocation_of_last_free_identifier", "withdrawal_of_path_not_held"}
+	"identifier_shared_by_prefixes", "withdrawals_checked", "genuine_exhaustion", "allocation_of_last_free_identifier", "withdrawal_of_path_not_held", "blocked_announcement"}
 
 func TestVerifC11(t *testing.T) {
 	r := vh.Start(t, "C11")
@@ -508,7 +545,7 @@ func TestVerifC11(t *testing.T) {
 	r.Rule("per universe (session kind ibgp|rs-client|ebgp|rr-client x attribute in which path 2 differs from path 0 outside ComputeHash x attribute in which path 3 differs), " +
 		"identifier space 3 (= number of distinct attribute sets: allocation must never fail) plus universes with identifier space 1 and 2 (allocation may fail only while that many identifiers are in use), " +
 		"two universes with the allocator's counter about to wrap around and withdrawals of paths a prefix does not hold in the alphabet, four universes with an export policy that rewrites an attribute (set MED); " +
-		"BFS over all AddPath/RemovePath histories of 4 Loc-RIB paths (0 and 1 attribute-identical) on 3 prefixes (quick: 2 prefixes for every universe, 3 prefixes for 8 of them) against a real add-path AdjRIBOut until the canonical state " +
+		"BFS over all AddPath/RemovePath histories of 4 Loc-RIB paths (0 and 1 attribute-identical) and the announcement of a path the export rules block (NO_ADVERTISE) on 3 prefixes (quick: 2 prefixes for every universe, 3 prefixes for 8 of them) against a real add-path AdjRIBOut until the canonical state " +
 		"(model, table, peer view, private pathIDManager maps and counters; identifiers ranked) set closes; evaluations = universes explored")
 	r.Require(zvC11Required...)
 	if r.IsReplay() {
